@@ -1,0 +1,15 @@
+//go:build verif
+
+package repl
+
+// VerifFS, when set, is called with the name of the point reached before and
+// after each file system step (open, write, close, rename) of the history,
+// stash and config file updates. A verification harness uses it to observe
+// the files as a process death at that point would leave them.
+var VerifFS func(point string)
+
+func verifFS(point string) {
+	if VerifFS != nil {
+		VerifFS(point)
+	}
+}
